@@ -335,4 +335,49 @@ fn k_npy_decode_chunked_reader() {
     kani::cover!(true);
 }
 
+
+/// a longer array (64 values = 512 data bytes, a typical buffer size): every value arrives, in order
+#[kani::proof]
+#[kani::unwind(70)]
+#[kani::stub(<HeaderDict as fmt::Display>::fmt, stub_dict_fmt)]
+fn k_npy_write_array_64_values() {
+    let mut data = Vec::with_capacity(64);
+    let mut i = 0;
+    while i < 64 {
+        data.push((i * i + 1) as f64);
+        i += 1;
+    }
+    let arr = crate::array::Array::new(data, crate::array::Shape(vec![64])).unwrap();
+    let mut sink = BigSink { buf: [0; 700], len: 0 };
+    assert!(crate::array::npy::write_array(&mut sink, &arr).is_ok(), "writing succeeds");
+    assert!(sink.len == 128 + 512, "header, then 8 bytes per value, for all 64 values");
+    let mut k = 0;
+    while k < 64 {
+        let bits = ((k * k + 1) as f64).to_bits();
+        assert!(sink.buf[128 + 8 * k] == (bits & 0xff) as u8 && sink.buf[128 + 8 * k + 7] == (bits >> 56) as u8, "value k at offset 128 + 8k");
+        k += 1;
+    }
+    kani::cover!(true);
+}
+
+struct BigSink {
+    buf: [u8; 700],
+    len: usize,
+}
+
+impl Write for BigSink {
+    fn write(&mut self, b: &[u8]) -> io::Result<usize> {
+        let mut i = 0;
+        while i < b.len() {
+            self.buf[self.len + i] = b[i];
+            i += 1;
+        }
+        self.len += b.len();
+        Ok(b.len())
+    }
+    fn flush(&mut self) -> io::Result<()> {
+        Ok(())
+    }
+}
+
 playback_tests!("h_npy_header");
